@@ -310,8 +310,8 @@ fn show(c: &Case) -> serde_json::Value {
 
 fn stages(tier: Tier) -> Vec<Box<dyn Stage>> {
     vec![
-        gen_stage_show("inproc", RULE, tier.pick(3000, 60_000), 400, case_strategy, check_inproc, show),
-        gen_stage_show("cli", RULE, tier.pick(320, 6000), 150, case_strategy, check_cli, show),
+        gen_stage_show("inproc", RULE, tier.pick(8000, 100_000), 400, case_strategy, check_inproc, show),
+        gen_stage_show("cli", RULE, tier.pick(800, 10_000), 150, case_strategy, check_cli, show),
     ]
 }
 
